@@ -250,7 +250,10 @@ class Geometry:
             ]
         )
 
-        data = np.loadtxt(stream, skiprows=2, dtype=dt, comments=None)
+        # ndmin=1: a single atom would otherwise give a 0-d array
+        data = np.loadtxt(
+            stream, skiprows=2, dtype=dt, comments=None, ndmin=1
+        )
 
         atom_types = [PERIODIC_TABLE[atom] for atom in data["atom"]]
         coords = np.column_stack((data["x"], data["y"], data["z"]))
